@@ -16,6 +16,19 @@ def same_angle(a, b):
     return land(app('=', S(a), S(b)), app('=', C(a), C(b)))
 
 
+def trunc_q(v):   # the integer the code's fmod subtracts: trunc(v / 2pi)
+    q = app('/', v, PI2)
+    return app('ite', app('>=', q, '0.0'), app('to_int', q), app('-', app('to_int', app('-', q))))
+
+
+def make_norm_axioms(B):
+    # sin/cos of a normalised angle equal those of the angle (periodicity instances for the possible shifts)
+    def norm_axioms(a):
+        t = trunc_q(a)
+        return [B.axiom('periodic_2pi', a, neg(t)), B.axiom('periodic_2pi', a, neg(sub(t, '1'))), B.axiom('periodic_2pi', a, neg(add(t, '1')))]
+    return norm_axioms
+
+
 def vcs(B):
     B.unit('inst/euler.cpp')
     B.unit('src/transform/SmartRotation3D.cpp')
@@ -27,10 +40,6 @@ def vcs(B):
     B.function('SR__init3', 'romea::core::SmartRotation3D', 'init', nparams=3)
     B.extract()
     B.decls['pi'] = 'Real'
-
-    def trunc_q(v):   # the integer the code's fmod subtracts: trunc(v / 2pi)
-        q = app('/', v, PI2)
-        return app('ite', app('>=', q, '0.0'), app('to_int', q), app('-', app('to_int', app('-', q))))
 
     # ---- normalisers ------------------------------------------------------------------------------
     v = B.real('v')
@@ -45,10 +54,7 @@ def vcs(B):
     B.vc('betweenMinusPiAndPi.in_minus_pi_pi', land(app('<=', '(- pi)', r2), app('<=', r2, 'pi')), dom, functions=['betweenMinusPiAndPi'])
     B.vc('betweenMinusPiAndPi.congruent_mod_2pi', lor(*[app('=', r2, sub(v, mul(PI2, app('to_real', add(trunc_q(v), str(d)) if d >= 0 else sub(trunc_q(v), str(-d)))))) for d in (-1, 0, 1)]), dom, functions=['betweenMinusPiAndPi'])
 
-    # helper: sin/cos of a normalised angle equal those of the angle (periodicity instances for the two possible shifts)
-    def norm_axioms(a):
-        t = trunc_q(a)
-        return [B.axiom('periodic_2pi', a, neg(t)), B.axiom('periodic_2pi', a, neg(sub(t, '1'))), B.axiom('periodic_2pi', a, neg(add(t, '1')))]
+    norm_axioms = make_norm_axioms(B)
 
     # ---- planar pair ---------------------------------------------------------------------------------
     th = B.real('theta')
@@ -143,7 +149,7 @@ def vcs(B):
     quaternion_route(B)
 
 
-def matrix_route(B, norm_axioms):
+def matrix_route(B, norm_axioms, pre=''):
     """'converting any rotation to angles and back returns the same rotation': for every proper rotation matrix R with |R(2,0)| < 1,
     Rz*Ry*Rx of rotation3DToEulerAngles(R) is R.  (eulerAnglesToRotation3D and SmartRotation3D are each proved to return Rz*Ry*Rx of
     their angles for ALL angles, so this closes R -> angles -> R for both.)  Three kinds of VC: what the sine and cosine of each
@@ -175,18 +181,18 @@ def matrix_route(B, norm_axioms):
     names = ('roll', 'pitch', 'yaw')
     # (1) the normaliser keeps sine and cosine
     for k in range(3):
-        B.vc('lemma.R_to_angles.%s_is_the_raw_angle_mod_2pi' % names[k], same_angle(e[k], raw[k]), dom + norm_axioms(raw[k]), functions=fe, timeout=120)
+        B.vc(pre + 'lemma.R_to_angles.%s_is_the_raw_angle_mod_2pi' % names[k], same_angle(e[k], raw[k]), dom + norm_axioms(raw[k]), functions=fe, timeout=120)
     # (2) sine and cosine of the raw angles in terms of R; rho = sqrt(1 - R20^2) appears as the atan2 radius of (R22, R21) and of (R00, R10)
     one_m = sub('1.0', mul(r(2, 0), r(2, 0)))
     rho_x = app('f_sqrt', add(mul(r(2, 2), r(2, 2)), mul(r(2, 1), r(2, 1))))
     rho_z = app('f_sqrt', add(mul(r(0, 0), r(0, 0)), mul(r(1, 0), r(1, 0))))
-    B.vc('lemma.R_to_angles.roll_sine_cosine', land(app('=', mul(S(raw[0]), rho_x), r(2, 1)), app('=', mul(C(raw[0]), rho_x), r(2, 2)), app('>', rho_x, '0.0'), app('=', mul(rho_x, rho_x), one_m)),
+    B.vc(pre + 'lemma.R_to_angles.roll_sine_cosine', land(app('=', mul(S(raw[0]), rho_x), r(2, 1)), app('=', mul(C(raw[0]), rho_x), r(2, 2)), app('>', rho_x, '0.0'), app('=', mul(rho_x, rho_x), one_m)),
          dom + orth, functions=fe, timeout=120)
-    B.vc('lemma.R_to_angles.yaw_sine_cosine', land(app('=', mul(S(raw[2]), rho_z), r(1, 0)), app('=', mul(C(raw[2]), rho_z), r(0, 0)), app('>', rho_z, '0.0'), app('=', mul(rho_z, rho_z), one_m)),
+    B.vc(pre + 'lemma.R_to_angles.yaw_sine_cosine', land(app('=', mul(S(raw[2]), rho_z), r(1, 0)), app('=', mul(C(raw[2]), rho_z), r(0, 0)), app('>', rho_z, '0.0'), app('=', mul(rho_z, rho_z), one_m)),
          dom + orth, functions=fe, timeout=120)
-    B.vc('lemma.R_to_angles.radii_agree', app('=', rho_x, rho_z), dom + orth + [app('>', rho_x, '0.0'), app('=', mul(rho_x, rho_x), one_m), app('>', rho_z, '0.0'), app('=', mul(rho_z, rho_z), one_m)], functions=fe, timeout=120)
+    B.vc(pre + 'lemma.R_to_angles.radii_agree', app('=', rho_x, rho_z), dom + orth + [app('>', rho_x, '0.0'), app('=', mul(rho_x, rho_x), one_m), app('>', rho_z, '0.0'), app('=', mul(rho_z, rho_z), one_m)], functions=fe, timeout=120)
     asn = app('f_asin', r(2, 0))
-    B.vc('lemma.R_to_angles.pitch_sine_cosine', land(app('=', S(raw[1]), neg(r(2, 0))), app('=', C(raw[1]), rho_x)),
+    B.vc(pre + 'lemma.R_to_angles.pitch_sine_cosine', land(app('=', S(raw[1]), neg(r(2, 0))), app('=', C(raw[1]), rho_x)),
          dom + orth + [B.axiom('sin_neg', asn), app('>', rho_x, '0.0'), app('=', mul(rho_x, rho_x), one_m)], functions=fe, timeout=120)
     # (3) the nine entries over symbols: sx rho = R21, cx rho = R22, sy = -R20, cy = rho, sz rho = R10, cz rho = R00, rho > 0, rho^2 = 1 - R20^2
     g = {k: B.real('g_' + k) for k in ('sx', 'cx', 'sy', 'cy', 'sz', 'cz', 'rho', 'inv_rho')}
@@ -198,7 +204,7 @@ def matrix_route(B, norm_axioms):
     Rt = symalg.rot_zyx()
     for i in range(3):
         for j in range(3):
-            B.vc('R_to_angles_to_R[%d,%d].RzRyRx_of_the_returned_angles_is_R' % (i, j), app('=', Rt[i][j].smt(env), r(i, j)), gfacts, functions=fe, timeout=120, subst=gen)
+            B.vc(pre + 'R_to_angles_to_R[%d,%d].RzRyRx_of_the_returned_angles_is_R' % (i, j), app('=', Rt[i][j].smt(env), r(i, j)), gfacts, functions=fe, timeout=120, subst=gen)
 
 
 def quaternion_route(B):
